@@ -1,7 +1,6 @@
 package jschema
 
 import (
-	stdBytes "bytes"
 	"fmt"
 
 	"github.com/jsightapi/jsight-schema-go-library/bytes"
@@ -112,7 +111,11 @@ func (b *exampleBuilder) buildObjectKey(k internalSchema.ObjectNodeKey) ([]byte,
 	if err != nil {
 		return nil, err
 	}
-	return stdBytes.Trim(ex, `"`), nil
+	// Only the enclosing quotes go: the example may itself end in an escaped quote.
+	if len(ex) >= 2 && ex[0] == '"' && ex[len(ex)-1] == '"' {
+		ex = ex[1 : len(ex)-1]
+	}
+	return ex, nil
 }
 
 // escapeJSONString returns s as the content of a JSON string (without the
